@@ -2,6 +2,9 @@
 (* Design check of LogRoute: universes from LogRouteU. *)
 EXTENDS LogRoute, LogRouteU
 NoBugs == {}
+(* the configurations without tag filters explore the target-side calls only *)
+NextTargets == AOpen \/ AClose \/ AEnable \/ ADisable \/ AAdd \/ ARemove \/ AClearAll \/ ALog
+SpecTargets == Init /\ [][NextTargets]_vars
 BugKF1 == {"kf1"}
 BugKF2 == {"kf2"}
 BugKF3 == {"kf3"}
